@@ -3,76 +3,72 @@ package main
 import (
 	"fmt"
 	"time"
+	"strings"
 
-	"github.com/apmckinlay/gsuneido/core"
-	"github.com/apmckinlay/gsuneido/db19"
-	"github.com/apmckinlay/gsuneido/db19/stor"
-	"github.com/apmckinlay/gsuneido/dbms/query"
+	"verif/model/dbmodel"
+	"verif/model/dbmodel/drive"
 )
 
-func admin(db *db19.Database, s string) {
-	defer func() {
-		if e := recover(); e != nil {
-			fmt.Println("admin", s, "=>", e)
-		}
-	}()
-	query.DoAdmin(db, s, nil)
-}
+type M = map[string]string
 
-func out(db *db19.Database, table string, vals ...string) {
-	ut := db.NewUpdateTran()
-	var rb core.RecordBuilder
-	for _, v := range vals {
-		rb.Add(core.SuStr(v))
+func req(kind, table, cols string, idx ...dbmodel.Index) drive.Event {
+	r := dbmodel.Req{Kind: kind, Table: table, Idx: idx}
+	if cols == "-" {
+		r.NoCols = true
+	} else if cols != "" {
+		r.Cols = strings.Split(cols, ",")
+	} else {
+		r.NoCols = true
 	}
-	ut.Output(nil, table, rb.Build())
-	if s := ut.Complete(); s != "" {
-		fmt.Println("commit failed", s)
-	}
+	return drive.Admin(r)
 }
-
-func show(db *db19.Database, what string) {
-	rt := db.NewReadTran()
-	fmt.Print(what, ": tables:")
-	for _, ts := range rt.GetAllSchema() {
-		fmt.Print(" ", ts.Table)
+func ix(mode byte, cols string) dbmodel.Index { return dbmodel.Index{Mode: mode, Cols: strings.Split(cols, ",")} }
+func ins(table string, rows ...M) drive.Event {
+	var ops []dbmodel.RowOp
+	for _, r := range rows {
+		ops = append(ops, dbmodel.RowOp{Kind: "insert", Table: table, Row: r})
 	}
-	fmt.Print(" infos:")
-	for _, ti := range rt.GetAllInfo() {
-		fmt.Print(" ", ti.Table, "/", ti.Nrows)
-	}
-	fmt.Println(" views:", rt.GetAllViews())
+	return drive.Tx(ops...)
+}
+func upd(k string, set M) drive.Event {
+	return drive.Tx(dbmodel.RowOp{Kind: "update", Table: "a", Row: M{"k": k}, Set: set})
+}
+func del(k string) drive.Event {
+	return drive.Tx(dbmodel.RowOp{Kind: "delete", Table: "a", Row: M{"k": k}})
 }
 
 func main() {
-	db19.MakeSuTran = func(ut *db19.UpdateTran) *core.SuTran { return core.NewSuTran(nil, true) }
-	st := stor.HeapStor(8192)
-	db := db19.CreateDb(st)
-	db19.StartConcur(db, time.Hour)
-	t0 := time.Now()
-	admin(db, "view v1 = t")
-	db.Persist()
-	admin(db, "view v2 = t")
-	db.Persist()
-	admin(db, "create t (a,b) key(a)")
-	db.Persist()
-	out(db, "t", "x", "y")
-	db.Persist()
-	show(db, "before drop")
-	admin(db, "drop t")
-	show(db, "after drop")
-	db.Persist()
-	db.Close()
-	fmt.Println("elapsed", time.Since(t0))
-	db2, err := db19.OpenDbStor(st, stor.Update, true)
-	if err != nil {
-		fmt.Println("open:", err)
-		return
+	base := []drive.Event{req("create", "a", "k,x,y", ix('k', "k"), ix('i', "x")), ins("a", M{"k": "1", "x": "p", "y": "q"}, M{"k": "2", "x": "p"}), drive.Persist()}
+	variants := [][]drive.Event{
+		append(append([]drive.Event{}, base...), drive.Reopen(), upd("2", M{"y": "s"}), req("alter_create", "a", "w", ix('u', "w")), del("2")),
+		append(append([]drive.Event{}, base...), upd("2", M{"y": "s"}), req("alter_create", "a", "w", ix('u', "w")), del("2")),
+		append(append([]drive.Event{}, base...), upd("2", M{"y": "s"}), req("alter_create", "a", "w", ix('i', "w")), del("2")),
+		append(append([]drive.Event{}, base...), upd("2", M{"y": "s"}), req("alter_create", "a", "-", ix('i', "y")), del("2")),
+		append(append([]drive.Event{}, base...), req("alter_create", "a", "w", ix('u', "w")), del("2")),
 	}
-	show(db2, "after reopen")
-	db19.StartConcur(db2, time.Hour)
-	fmt.Println("check:", db2.Check(true))
-	rt := db2.NewReadTran()
-	fmt.Println("GetInfo(t) != nil:", rt.GetInfo("t") != nil)
-	db2.Close()
+	for i, evs := range variants {
+		restore := drive.Quiet()
+		s, bad, msg := drive.Replay(drive.NewHeap, evs)
+		if bad >= 0 {
+			restore()
+			fmt.Println(i, "replay mismatch", msg)
+			continue
+		}
+		d1 := s.Compare()
+		if i < 2 {
+			time.Sleep(20 * time.Millisecond)
+			rt := s.DB.NewReadTran()
+			ti := rt.GetInfo("a")
+			fmt.Println("variant", i, "nrows", ti.Nrows, "btreeNrows", ti.BtreeNrows, "deltas", ti.Deltas)
+			for j, ov := range ti.Indexes {
+				fmt.Println(" index", j, "modified", ov.Modified(), "nlayers", ov.Nlayers(), strings.ReplaceAll(ov.String(), "\n", " | "))
+			}
+		}
+		m := s.Apply(drive.Reopen())
+		d2 := s.Compare()
+		d3 := s.CheckDb()
+		restore()
+		fmt.Println(i, drive.EventsText(evs), "\n   live:", d1, "reopen:", m, d2, d3)
+		s.Close()
+	}
 }
